@@ -13,4 +13,5 @@ print('|---|---|---|---|---|')
 for r in rows:
     print('| ' + ' | '.join(x.replace('|', '/') for x in r) + ' |')
 first = sum(1 for r in rows if r[3].startswith('yes'))
-print('\n%d seeded changes; %d caught on the first run of the check as it stood; the others led to the strengthening described in the table.' % (len(rows), first))
+und = [r[0] for r in rows if r[3].startswith('NOT decided')]
+print('\n%d seeded changes; %d caught on the first run of the check as it stood; %d not decided (%s: reason in the table); the others led to the strengthening described in the table.' % (len(rows), first, len(und), ', '.join(und) or '-'))
